@@ -1559,7 +1559,19 @@ sqrt_signed_int(Type& to, const Type from, Rounding_Dir dir) {
   if (CHECK_P(To_Policy::check_sqrt_neg, from < 0)) {
     return assign_nan<To_Policy>(to, V_SQRT_NEG);
   }
-  return sqrt_unsigned_int<To_Policy, From_Policy>(to, from, dir);
+  // isqrt_rem() needs one more bit than the radicand: use the unsigned type.
+  typedef typename C_Integer<Type>::other_type UType;
+  UType u_to;
+  UType u_rem;
+  isqrt_rem(u_to, u_rem, static_cast<UType>(from));
+  to = static_cast<Type>(u_to);
+  if (round_not_requested(dir)) {
+    return V_GE;
+  }
+  if (u_rem == 0) {
+    return V_EQ;
+  }
+  return round_gt_int<To_Policy>(to, dir);
 }
 
 template <typename To_Policy, typename From1_Policy, typename From2_Policy,
